@@ -246,3 +246,49 @@ def v1g(ctx, n_random):
     ctx.coverage["v1g_mismatching_rules"] = bad
     ctx.coverage["v1g_excluded_undefined_identifier"] = excl
     return ngr, nget, bad
+
+
+def strip_restore(e):
+    if isinstance(e, (list, tuple)):
+        if len(e) == 2 and e[0] == "restore":
+            return strip_restore(e[1])
+        return [strip_restore(x) for x in e]
+    return e
+
+
+def raw_getters_same(ctx, n_random):
+    """pest_optimizer = false must only change how rules are translated where the optimizer rewrote them: for every rule whose
+    un-optimized expression IS the optimized one (up to RestoreOnErr), the accessors emitted on the two generator paths
+    (generator/src/graph/optimized_rule.rs and its twin graph/rule.rs) are the same -- type and path, compared code against code"""
+    gendump.build()
+    texts = corpus_texts(ctx.seed, n_random)
+    a = gendump.dump([("p%d" % i, t, {"emit_rule_reference": "true"}) for i, t in enumerate(texts)])
+    b = gendump.dump([("q%d" % i, t, {"emit_rule_reference": "true", "pest_optimizer": "false"}) for i, t in enumerate(texts)])
+    n = bad = 0
+    for i, t in enumerate(texts):
+        ra, rb = a["p%d" % i], b["q%d" % i]
+        if not (ra.meta_ok and ra.gen_ok and rb.meta_ok and rb.gen_ok):
+            continue
+        if ra.anomalies() or rb.anomalies():
+            continue
+        opt = {nm: strip_restore(e) for (nm, k, e) in (ra.ast("ast_opt") or [])}
+        raw = {nm: e for (nm, k, e) in (rb.ast("ast_raw") or [])}
+        ga, gb = ra.getters(), rb.getters()
+        for rn in opt:
+            if rn not in raw or opt[rn] != raw[rn]:
+                continue            # the optimizer rewrote this rule (or it has counted repetitions): different types are expected
+            n += 1
+            xa = {x: (gendump.show_sexp(v["type"]), gendump.show_sexp(v["path"])) for x, v in (ga.get(rn) or {}).items()}
+            xb = {x: (gendump.show_sexp(v["type"]), gendump.show_sexp(v["path"])) for x, v in (gb.get(rn) or {}).items()}
+            if xa != xb:
+                bad += 1
+                if bad <= 3:
+                    diff = sorted(set(xa.items()) ^ set(xb.items()))[:4]
+                    ctx.violation("accessors of rule %s differ between the optimized and the un-optimized generator path although the "
+                                  "optimizer left the rule unchanged: %s" % (rn, repr(diff)[:300]),
+                                  {"grammar": t, "rule": rn, "options": [{"emit_rule_reference": True}, {"emit_rule_reference": True, "pest_optimizer": False}],
+                                   "optimized_path": xa, "raw_path": xb, "broken": "accessors(optimized_rule.rs) = accessors(rule.rs) on unchanged rules"},
+                                  found_input=False)
+    ctx.coverage["raw_vs_opt_getter_rules_compared"] = n
+    ctx.coverage["raw_vs_opt_getter_mismatches"] = bad
+    return n, bad
